@@ -1,6 +1,7 @@
 #![allow(dead_code)]
 mod cfam;
 mod drive;
+mod enc;
 mod indep;
 mod mfam;
 mod model;
@@ -9,6 +10,7 @@ mod refm;
 mod sup;
 mod tfam;
 mod wfam;
+mod xfam;
 
 use sup::*;
 
@@ -33,6 +35,7 @@ fn main() {
         "C19" => run_check(&tfam::C19, &args),
         "C15" => run_check(&mfam::C15, &args),
         "C17" => run_check(&mfam::C17, &args),
+        "C10" => run_check(&xfam::C10, &args),
         "C06" => run_check(&wfam::C06, &args),
         "C07" => run_check(&wfam::C07, &args),
         "C08" => run_check(&wfam::C08, &args),
